@@ -33,7 +33,8 @@ class C13(Prop):
     widen_rounds = 1
     max_reports = 3
     widen_factor = 2
-    gen_names = ("g_write_deadline_guard", "g_ping_deadline_guard", "g_blocking_points", "g_chan_makes", "g_defers",
+    gen_names = ("g_lock_nest", "g_lock_blocking_under_lock", "g_lock_classes", "g_lock_callbacks",
+                 "g_write_deadline_guard", "g_ping_deadline_guard", "g_blocking_points", "g_chan_makes", "g_defers",
                  "g_spawns", "g_closes", "bp_kind")
     rule = ("sessions: composition drawn from 9 (default, cache, router, SQLite, merge(cache,router), "
             "merge(cache,router,SQLite) as in cmd/mocrelay, a 4-way merge, a nested merge, a middleware inside a merge) x 5 "
@@ -61,6 +62,7 @@ class C13(Prop):
             "on WebSocket cases the model's prediction is the guard generated from relay.go. distinct = distinct "
             "(composition, stack, history shape, ending, peer, settle)")
     trusted_base = COMMON_TRUSTED + [
+        "lock acquisitions and blocking operations (Gen/GenLockOrder.v) are recognised by a syntactic and type-based walker over handler.go, data_structure.go and event_cache.go: interface calls resolve to the package's own implementations, external library calls other than Wait, Sleep and context-taking Read/Write/Ping are assumed neither to block nor to lock",
         "the process-network model (Proc.v) abstracts message contents, timers and panics; its tie to handler.go/relay.go/"
         "utils.go is the computed coverage obligation C13_blocking_points_covered over tables extracted syntactically "
         "(every select with its cases, bare send/receive, range over a channel, WaitGroup.Wait, helper calls, channel "
